@@ -8,7 +8,10 @@ git apply "$D/patch.diff" || { echo "patch does not apply"; exit 2; }
 trap 'git -C /repo checkout -- .' EXIT
 for id in "$@"; do
   start=$(date +%s)
+  # the evidence file describes the unchanged tree: keep it out of the way of this run
+  cp /verif/evidence/$id.json /tmp/evidence-$id.$$.json 2>/dev/null
   out=$(cd /verif && VERIF_SEED=${VERIF_SEED:-0} ./run $id quick 2>&1); code=$?
+  [ -f /tmp/evidence-$id.$$.json ] && mv /tmp/evidence-$id.$$.json /verif/evidence/$id.json
   end=$(date +%s)
   {
   echo "$id seed=${VERIF_SEED:-0} exit=$code wall=$((end-start))s $(echo "$out" | grep -E '^property=' | sed 's/property=[^ ]* tier=[^ ]* seed=[^ ]* //')"
